@@ -22,7 +22,7 @@ for pid in sorted(check.PROPS):
         engine="vh",
         level_claimed=dict(category=P["level"], text=t["level_text"], design_ref=t["design_ref"]),
         level_note=t["level_note"],
-        technique=t["technique"],
+        technique=t["technique"] + ("; libFuzzer (coverage/comparison-guided, ASan) as an additional workload source judged by the same oracle" if any(st["build"] == "fuzz" for st in P["stages"]) else "") + "; generators fed with the literals of the source tree under test",
     ))
 m = dict(
     version=1,
